@@ -1,6 +1,7 @@
 import JominiModel.Proofs.TextTapeCutLex
 import JominiModel.Proofs.TextTapeStable
 import JominiModel.Proofs.TextTapeCutFields
+import JominiModel.Proofs.TextTapeCutTail
 /-
 C19 (text tape parser): what the scalar scanners and the whole parser return on a truncated input.
 -/
@@ -224,5 +225,136 @@ theorem C19_text_tape_fields_partial (d : Bytes) (k : Nat) (T' T : List Tok) (b'
 structure of the truncated tape: `D = [a, b]`. -/
 example : Gr (.body false) [.unquoted ⟨3, [97]⟩, .unquoted ⟨1, [98]⟩] 0 :=
   Gr.bfield (ops := []) (v := [.unquoted ⟨1, [98]⟩]) (rest := []) rfl (.inl rfl) (Gr.scal rfl) Gr.bnil
+
+/-- the split point of a cut: the two parses go through the same iterations up to a state `st0`
+(tape `C`), from which the truncated parse has fewer than two bytes of lookahead left after its
+next iteration; both finish from there. -/
+theorem cut_split (d : Bytes) (k : Nat) (T' T : List Tok) (b' b : Bool)
+    (hk : k ≤ d.length) (hbom : hasBom (d.take k) = hasBom d)
+    (h' : parse (d.take k) = .ok T' b') (h : parse d = .ok T b) :
+    ∃ (st0 : St) (d0 : Bytes) (fuel0 fuel1 : Nat) (bp bd : Bool), StInv st0 ∧
+      Short (d.take k).length st0 d0 ∧
+      run (d.take k).length fuel0 st0 d0 = .ok T' bp ∧
+      run d.length fuel1 (st0.shift (d.length - k)) (d0 ++ d.drop k) = .ok T bd := by
+  have hq : (d.drop k).length = d.length - k := by simp
+  unfold parse at h' h
+  simp only at h' h
+  rw [hbom] at h'
+  generalize hdp : (if hasBom d = true then List.drop 3 (d.take k) else d.take k) = dp at h'
+  generalize hdd : (if hasBom d = true then List.drop 3 d else d) = dd at h
+  have hsplit : dd = dp ++ d.drop k := by
+    rw [← hdp, ← hdd]
+    split
+    · next hb =>
+      have hk3 : 3 ≤ k := by
+        rcases Nat.lt_or_ge k 3 with hlt | hge
+        · exfalso
+          have : hasBom (d.take k) = false := by
+            simp only [hasBom, beq_eq_false_iff_ne, ne_eq]
+            intro h0
+            have := congrArg List.length h0
+            simp at this; omega
+          rw [hbom, hb] at this; simp at this
+        · exact hge
+      rw [← List.drop_append_of_le_length (by simp; omega), List.take_append_drop]
+    · exact (List.take_append_drop k d).symm
+  generalize hrp : run (d.take k).length (fuelFor dp) St.init dp = rp at h'
+  generalize hrd : run d.length (fuelFor dd) St.init dd = rd at h
+  have hrp' : ∃ bp, rp = .ok T' bp := by cases rp <;> simp [Res.withBom] at h'; exact ⟨_, by rw [h'.1]⟩
+  have hrd' : ∃ bd, rd = .ok T bd := by cases rd <;> simp [Res.withBom] at h; exact ⟨_, by rw [h.1]⟩
+  obtain ⟨bp, rfl⟩ := hrp'
+  obtain ⟨bd, rfl⟩ := hrd'
+  obtain ⟨j, st0, d0, fuel0, hinv0, hrun0, hshort, hlock⟩ :=
+    run_lockstep (d.take k).length d.length (d.drop k) (fuelFor dp) St.init dp _ _ hrp StInv.init
+  have hD : run d.length (fuelFor dd) (st0.shift (d.drop k).length) (d0 ++ d.drop k) = .ok T bd := by
+    have := hlock (fuelFor dd)
+    rw [← hsplit, show St.init.shift (d.drop k).length = St.init from rfl,
+      run_more_fuel _ _ j _ _ _ hrd (by simp)] at this
+    exact this.symm
+  rw [hq] at hD
+  exact ⟨st0, d0, fuel0, fuelFor dd, bp, bd, hinv0, hshort, hrun0, hD⟩
+
+/-
+C19 (text tape), the tail behind the split point.  Sketch of the full statement: every token of
+the truncated tape beyond the common fields is either (a) a token of the full tape at the same
+position (modulo the `end` pointers of containers closed by the EOF tolerance) or (b) stems from
+the one lexeme the cut shortened.
+
+Proved for ALL inputs and ALL cuts (`C` = the tape at the split point, where the two parses stop
+running in lockstep):
+(1) pointwise (a): every token of `C` except its last one and the containers still open at the
+    split point is the same token of the truncated tape and (positions shifted) of the full tape —
+    also INSIDE the still open top-level container, which the prefix statements above do not reach;
+(2) the tail is short: the truncated tape has at most 13 tokens behind `C` (3 per remaining
+    iteration, at most four of them, and the `End` of the EOF tolerance) and `C` is not longer than
+    the full tape, so the truncated tape never exceeds the full one by more than that;
+(3) nothing is fabricated: every scalar of the truncated tape carries exactly the bytes the FULL
+    input has at the scalar's offset, inside the truncated part.
+Missing for the full statement: the classification of those at most 13 tail tokens into (a) and
+(b), i.e. the comparison of the last iterations of the truncated run with the iterations of the
+full run on the same bytes (the lexeme-level part of it is `C19_scalar_not_merged` /
+`C19_quote_not_extended`), a sharp bound instead of 13, and what happens to the containers open at
+the split point (they keep their index and kind; the `end` / flag fields are written when they are
+closed).  With it `C19_text_tape_fields_partial` would lose its `_partial`.
+-/
+theorem C19_text_tape_tail_partial (d : Bytes) (k : Nat) (T' T : List Tok) (b' b : Bool)
+    (hk : k ≤ d.length) (hbom : hasBom (d.take k) = hasBom d)
+    (h' : parse (d.take k) = .ok T' b') (h : parse d = .ok T b) :
+    ∃ C : List Tok,
+      C.length ≤ T'.length ∧ C.length ≤ T.length ∧ T'.length ≤ C.length + 13 ∧
+      (∀ i, i + 1 < C.length → NotOpen C i →
+        T'[i]? = C[i]? ∧ T[i]? = (C[i]?).map (Tok.shift (d.length - k))) ∧
+      (∀ s ∈ slices T', s.bytes.length ≤ s.tail ∧ s.tail ≤ k ∧
+        s.bytes = (d.drop (k - s.tail)).take s.bytes.length) := by
+  obtain ⟨st0, d0, fuel0, fuel1, bp, bd, hinv0, hshort, hrun0, hD⟩ := cut_split d k T' T b' b hk hbom h' h
+  refine ⟨st0.tape, run_len_le _ _ _ _ _ _ hinv0 hrun0, ?_, short_tail_len hshort _ _ _ hrun0, ?_,
+    scalars_from_full d k hk T' b' h'⟩
+  · have := run_len_le _ _ _ _ _ _ (hinv0.shift _) hD
+    simpa [St.shift_tape] using this
+  · intro i hi hn
+    refine ⟨run_settled _ _ _ _ _ _ i hinv0 hi hn hrun0, ?_⟩
+    have := run_settled _ _ _ _ _ _ i (hinv0.shift (d.length - k)) (by simpa [St.shift_tape] using hi)
+      (by simpa [St.shift_tape] using hn.shift (d.length - k)) hD
+    rw [this, St.shift_tape, getElem?_shift]
+
+/-- cut inside a scalar (`a=bc d=e` after `a=b`): the truncated scalar `b` is a proper prefix of the
+full scalar `bc` at the same offset -/
+example :
+    parse (([97, 61, 98, 99, 32, 100, 61, 101] : Bytes).take 3) =
+      .ok [.unquoted ⟨3, [97]⟩, .unquoted ⟨1, [98]⟩] false ∧
+    parse [97, 61, 98, 99, 32, 100, 61, 101] =
+      .ok [.unquoted ⟨8, [97]⟩, .unquoted ⟨6, [98, 99]⟩, .unquoted ⟨3, [100]⟩, .unquoted ⟨1, [101]⟩] false := by
+  decide +kernel
+
+/-- cut between key and operator (`a=b c=d` after `a=b c`): the truncated input does not parse -/
+example : parse (([97, 61, 98, 32, 99, 61, 100] : Bytes).take 5) = .err .eof := by decide +kernel
+
+/-- cut before `[[` (`a=b [[x] v]` after `a=b `): the truncated tape is a prefix of the full one; the
+scalar `b` could still have become a header (next example) -/
+example :
+    parse (([97, 61, 98, 32, 91, 91, 120, 93, 32, 118, 93] : Bytes).take 4) =
+      .ok [.unquoted ⟨4, [97]⟩, .unquoted ⟨2, [98]⟩] false ∧
+    parse [97, 61, 98, 32, 91, 91, 120, 93, 32, 118, 93] =
+      .ok [.unquoted ⟨11, [97]⟩, .unquoted ⟨9, [98]⟩, .parameter ⟨5, [120]⟩, .unquoted ⟨2, [118]⟩] false := by
+  decide +kernel
+
+/-- a scalar whose role changes because its successor is missing (`a=b{1}` after `a=b`): `b` is a
+value in the truncated tape and the header of the array in the full tape -/
+example :
+    parse (([97, 61, 98, 123, 49, 125] : Bytes).take 3) =
+      .ok [.unquoted ⟨3, [97]⟩, .unquoted ⟨1, [98]⟩] false ∧
+    parse [97, 61, 98, 123, 49, 125] =
+      .ok [.unquoted ⟨6, [97]⟩, .header ⟨4, [98]⟩, .array 4 false, .unquoted ⟨2, [49]⟩, .endTok 2] false := by
+  decide +kernel
+
+/-- the EOF tolerance (`a={b=c d=e}` after `a={b=c`): the open object is closed by the end of the
+input; its `end` pointer differs from the full tape's, every other common token is the same -/
+example :
+    parse (([97, 61, 123, 98, 61, 99, 32, 100, 61, 101, 125] : Bytes).take 6) =
+      .ok [.unquoted ⟨6, [97]⟩, .object 4 false, .unquoted ⟨3, [98]⟩, .unquoted ⟨1, [99]⟩, .endTok 1] false ∧
+    parse [97, 61, 123, 98, 61, 99, 32, 100, 61, 101, 125] =
+      .ok [.unquoted ⟨11, [97]⟩, .object 6 false, .unquoted ⟨8, [98]⟩, .unquoted ⟨6, [99]⟩,
+        .unquoted ⟨4, [100]⟩, .unquoted ⟨2, [101]⟩, .endTok 1] false := by
+  decide +kernel
 
 end Jomini.TextTape
